@@ -1,7 +1,7 @@
 (* P_C19 — Leading-term queries, decomposition and constants match the polynomial. *)
 From mathcomp Require Import all_ssreflect all_algebra.
 From SsrMultinomials Require Import mpoly.
-From NP Require Import Base Poly Order Compare Query OrderP Abs Align QueryP Clean SetDimP.
+From NP Require Import Base Poly Order Compare Query OrderP Abs Align QueryP Clean SetDimP Proxy ProxyP.
 Set Implicit Arguments. Unset Strict Implicit. Unset Printing Implicit Defensive.
 Import GRing.Theory.
 Local Open Scope ring_scope.
@@ -79,6 +79,46 @@ Theorem C19_set_dimensions_names o p d q :
 Proof. exact: set_dimensions_names. Qed.
 End Const.
 
+Section SortProxy.
+Variable R : realDomainType.
+Variables (g r : bool) (p : parr R).
+Hypothesis wp : wfb p.
+Let res := sortable_proxy g r p.
+Let L := lead_exponent g r p.
+
+(* sortable_proxy returns a permutation of 0 .. size-1 ... *)
+Theorem C19_sortable_proxy_permutation : perm_eq res (iota 0 (psize p)).
+Proof. exact: sortable_proxy_perm. Qed.
+
+(* ... that orders two elements with leading terms by leading exponent (the selected monomial order), then by
+   leading coefficient, then by position *)
+Theorem C19_sortable_proxy_orders_by_leading_term i j k k' :
+  (i < psize p)%N -> (j < psize p)%N ->
+  lead_index g r p i = Some k -> lead_index g r p j = Some k' ->
+  (nth 0%N res i < nth 0%N res j)%N
+  = if k == k'
+    then (cell (cols p) k i < cell (cols p) k j) || ((cell (cols p) k i == cell (cols p) k j) && (i < j)%N)
+    else mleq g r (nth [::] (rows p) k) (nth [::] (rows p) k').
+Proof. exact: sortable_proxy_leading. Qed.
+
+(* every pair, zero polynomials included: an element whose leading exponent (zeros for the zero polynomial) is a
+   stored exponent is ranked in that exponent's group by its coefficient there; one whose leading exponent is not
+   stored ranks below all others *)
+Theorem C19_sortable_proxy_all_pairs i j : (i < psize p)%N -> (j < psize p)%N ->
+  (nth 0%N res i < nth 0%N res j)%N
+  = if stored p L i && stored p L j
+    then (if grp p L i == grp p L j then inG p L i j
+          else (index (grp p L i) (glexsort g r (rows p)) < index (grp p L j) (glexsort g r (rows p)))%N)
+    else if stored p L j then true else if stored p L i then false else (i < j)%N.
+Proof. exact: sortable_proxy_order. Qed.
+
+Theorem C19_sortable_proxy_group_order k k' :
+  (k < size (rows p))%N -> (k' < size (rows p))%N -> k != k' ->
+  (index k (glexsort g r (rows p)) < index k' (glexsort g r (rows p)))%N
+  = mleq g r (nth [::] (rows p) k) (nth [::] (rows p) k').
+Proof. exact: order_index_mleq. Qed.
+End SortProxy.
+
 Print Assumptions C19_lead_is_largest.
 Print Assumptions C19_lead_of_zero.
 Print Assumptions C19_lead_exponent.
@@ -92,3 +132,7 @@ Print Assumptions C19_set_dimensions_grow.
 Print Assumptions C19_set_dimensions_shrink.
 Print Assumptions C19_set_dimensions_same.
 Print Assumptions C19_set_dimensions_names.
+Print Assumptions C19_sortable_proxy_permutation.
+Print Assumptions C19_sortable_proxy_orders_by_leading_term.
+Print Assumptions C19_sortable_proxy_all_pairs.
+Print Assumptions C19_sortable_proxy_group_order.
